@@ -554,3 +554,15 @@ package trend
 //@ use mul_lin(lam, c[j + P], c[j])
 //@ use abs_scale(lam, c[j + P] - c[j])
 //@ use ratio_scale(lam, abs(c[j + P] - c[j]), winS(absChS(c), P)[j])
+//@ lemma mulS_pscale(c stream, v stream, d stream, w stream, lam real, j int)
+//@ requires[C18] d[j] == lam * c[j] && w[j] == v[j]
+//@ ensures[C18] mulS(d, w)[j] == lam * mulS(c, v)[j]
+//@ use mul_assoc(lam, c[j], v[j])
+//@ lemma vwmaS_pscale(c stream, v stream, d stream, w stream, lam real, P int, n int, k int)
+//@ requires[C18] P >= 1 && k >= 0 && k + P <= n && (forall j :: 0 <= j && j < n ==> d[j] == lam * c[j] && w[j] == v[j]) && winS(v, P)[k] != 0
+//@ ensures[C18] vwmaS(d, w, P)[k] == lam * vwmaS(c, v, P)[k]
+//@ use forall j :: mulS_pscale(c, v, d, w, lam, j)
+//@ use smaS_scale(mulS(c, v), mulS(d, w), lam, P, k)
+//@ use psum_cong(v, w, k + P)
+//@ use psum_cong(v, w, k)
+//@ use div_scale_r(lam, winS(mulS(c, v), P)[k], winS(v, P)[k])
